@@ -17,7 +17,10 @@ RULE = ("scripts over a store of at most 3 sequences, run on the staged copy of 
         "plus random scripts of 20..60 operations from VERIF_SEED that also name Length/IsEmpty/Fold. After EVERY operation every "
         "live sequence is re-read on both implementations element by element (Head/Tail/IsEmpty walk) together with Length, "
         "IsEmpty and Fold under two non-commutative monoids (a*31+b; decimal concatenation), so Length/IsEmpty/Fold are observed "
-        "at every position of every script. A case is distinct by its script; non-trivial when it builds a sequence from another one")
+        "at every position of every script. Plus volume cases: New of 200..4200 elements (thorough: up to 20000; around 256, 1024, "
+        "2048, 4096), Fold under a third non-commutative monoid closed on int64 (affine maps over Z_65521 under composition; "
+        "the operation pauses on the first element) and Length, on both traits. "
+        "A case is distinct by its script; non-trivial when it builds a sequence from another one")
 TRUSTED = [
     "modelled, not verified: Go's append/slicing semantics as Seq/Model.go_append / s_tail (in place iff capacity allows), "
     "nil-pointer and index panics as None; pointers to list cells as allocation indexes",
@@ -38,7 +41,7 @@ CLAIM = {
 }
 ASSUMPTIONS = [
     "the caller of slice.New(xs...) does not write to xs afterwards (New returns the argument slice itself; aliasing with the caller is outside the script language)",
-    "element values 1..9 and sequences of at most 12 elements in the harness, so that the two int64 folds cannot overflow (asserted by the harness and re-checked in Coq)",
+    "element values 1..9 and sequences of at most 12 elements in the scripts, so that the two int64 folds cannot overflow (asserted by the harness and re-checked in Coq); longer sequences only in the volume cases, under the modular monoid",
     "panics are compared as a single observation 'panic' (list: nil dereference, slice: index/slice bounds out of range)",
 ]
 
@@ -70,7 +73,7 @@ def run_impl(ctx, tier=None):
     exe = build(ctx)
     ctx.exe = exe
     if ctx.replay_cases:
-        return run_scripts(ctx, exe, [c["script"] for c in ctx.replay_cases])
+        return run_scripts(ctx, exe, [{"vol": c["vol"][:2]} if c.get("kind") == "volume" else c["script"] for c in ctx.replay_cases])
     env = dict(ctx.env)
     if tier:
         env["VERIF_TIER"] = tier
@@ -137,6 +140,8 @@ def obs_coq(steps):
 
 
 def to_coq(c):
+    if c.get("kind") == "volume":
+        return "mkv %s" % vlib.zlist(c["vol"])
     ops = "; ".join(op_coq(o) for o in c["script"])
     a, b = obs_coq(c["list"]), obs_coq(c["slice"])
     if a == b:
@@ -219,8 +224,27 @@ def norm_snap(s):
     return (tuple(s["e"] or []), bool(s["ok"]), s["len"], bool(s["empty"]), tuple(s["f"]))
 
 
+VP = 65521
+
+
+def vol_required(n, a0):
+    xs = [3 * VP] + [(2 + (a0 + i) % 5) * VP + (1 + (a0 + i) % 7) for i in range(n)]
+    x = VP
+    for v in xs:
+        x = ((x // VP) * (v // VP) % VP) * VP + ((x % VP) * (v // VP) + v % VP) % VP
+    return x, len(xs)
+
+
 def first_diff(c):
     """(step, implementation, what) of the first observation that departs from the ADT, or None"""
+    if c.get("kind") == "volume":
+        n, a0, fl, fs, ll, ls = c["vol"]
+        f, ln = vol_required(n, a0)
+        if (fl, ll) != (f, ln):
+            return 0, "list", "fold" if fl != f else "length"
+        if (fs, ls) != (f, ln):
+            return 0, "slice", "fold" if fs != f else "length"
+        return None
     req, _ = adt_run(c["script"])
     for k in range(len(c["script"])):
         for impl in ("list", "slice"):
@@ -238,6 +262,8 @@ def first_diff(c):
 
 
 def nontrivial_key(c):
+    if c.get("kind") == "volume":
+        return json.dumps(c["vol"][:2])
     if any(o["op"] in ("cons", "tail") for o in c["script"]):
         return json.dumps(c["script"], sort_keys=True)
     return None
@@ -248,6 +274,8 @@ def signature(c):
     if d is None:
         return {"kind": "seq-adt", "impl": "?", "op": "?"}
     k, impl, what = d
+    if c.get("kind") == "volume":
+        return {"kind": "seq-adt", "impl": impl, "op": "volume-fold", "what": what}
     return {"kind": "seq-adt", "impl": impl, "op": c["script"][k]["op"], "what": what.split(" ")[0]}
 
 
@@ -264,7 +292,18 @@ def fmt_op(o):
     return "%s(s%d)" % ({"head": "Head", "length": "Length", "isempty": "IsEmpty"}[k], o["i"])
 
 
+def describe_volume(c):
+    n, a0, fl, fs, ll, ls = c["vol"]
+    f, ln = vol_required(n, a0)
+    return {"what": "s = New(x0, x1, .., x%d) on list.Trait and slice.Trait, x0 = 3*65521, xi = (2+(a0+i-1) mod 5)*65521 + 1+(a0+i-1) mod 7, a0 = %d; "
+                    "Fold(s) under the monoid of affine maps a*65521+b over Z_65521 (composition; empty element 65521); Length(s)" % (n, a0),
+            "observed": {"list.Fold": fl, "slice.Fold": fs, "list.Length": ll, "slice.Length": ls, "note": "-1 = panic"},
+            "required": {"Fold": f, "Length": ln}}
+
+
 def describe(c):
+    if c.get("kind") == "volume":
+        return describe_volume(c)
     d = first_diff(c)
     out = {"script": [fmt_op(o) for o in c["script"]]}
     if d:
@@ -276,6 +315,8 @@ def describe(c):
 
 
 def sample(c):
+    if c.get("kind") == "volume":
+        return describe_volume(c)
     return {"script": [fmt_op(o) for o in c["script"][:8]], "operations": len(c["script"]),
             "last_step_list": c["list"][-1] if c["list"] else None}
 
@@ -297,6 +338,8 @@ def cut(c, n):
 
 def shrink(ctx, c):
     """shortest failing prefix, then drop operations while the real code still departs from the ADT"""
+    if c.get("kind") == "volume":
+        return c
     d = first_diff(c)
     if d is None:
         return c
